@@ -178,6 +178,12 @@ func SolveAll(obs []*Ob, outDir string, timeoutS int) {
 					}
 				}
 			}
+			if r.status == "" && ob.Light != "" && ob.Light != ob.Query && ob.Kind != "cover" {
+				lr := lightSolve(ob.Light, outDir, base+".light")
+				if lr.status == "unsat" {
+					r = lr
+				}
+			}
 			if r.status == "" {
 				to := timeoutS
 				if ob.Kind == "cover" && to > 5 {
@@ -212,4 +218,20 @@ func SolveAll(obs []*Ob, outDir string, timeoutS int) {
 		}()
 	}
 	wg.Wait()
+}
+
+// lightSolve: quick attempt on the quantifier-free part of the hypotheses (z3 5.1 only, 3 s).
+func lightSolve(query, dir, base string) solveResult {
+	file := filepath.Join(dir, base+".smt2")
+	os.WriteFile(file, []byte(query), 0644)
+	defer os.Remove(file)
+	t0 := time.Now()
+	ctx, cancel := context.WithTimeout(context.Background(), 5*time.Second)
+	defer cancel()
+	out, _ := exec.CommandContext(ctx, "z3-new", "-T:3", file).CombinedOutput()
+	r := solveResult{solver: "z3-5.1(light)", timeS: time.Since(t0).Seconds()}
+	if firstLine(string(out)) == "unsat" {
+		r.status = "unsat"
+	}
+	return r
 }
